@@ -1434,8 +1434,10 @@ def _eval(pb, framework, step, options):
     x_eval = framework.x_best + step
     fun_val, cub_val, ceq_val = pb(x_eval, framework.penalty)
     r_val = pb.maxcv(x_eval, cub_val, ceq_val)
+    # The target is compared with the value returned by the objective
+    # function, not with the value obtained after the extreme barrier.
     if (
-        fun_val <= options[Options.TARGET]
+        pb.fun_last <= options[Options.TARGET]
         and r_val <= options[Options.FEASIBILITY_TOL]
     ):
         raise TargetSuccess
